@@ -147,6 +147,37 @@ C27Clauses(seen, cfg, tenant) ==
     (IF seen \subseteq RouteAccepted(cfg, tenant) THEN {} ELSE {"served-by-the-first-matching-hashring-or-default"})
     \cup (IF Cardinality(seen) <= 1 THEN {} ELSE {"choice-stable-across-repeated-and-concurrent-requests"})
 
+(* ---- C27 across a configuration reload ---- *)
+(* The receiver watches the hashring file and swaps the multi-hashring at runtime.  writes:   *)
+(* the contents written to the file in order (first = the content at start), a content is a   *)
+(* version id >= 1 (a valid configuration) or 0 (content that does not load: broken JSON,     *)
+(* empty file, empty list).  applied: the versions the running receiver put in force, in      *)
+(* order.  looks: observed requests [ver = version in force when the request read the         *)
+(* hashring, aver / aidx = version and index of the hashring that answered, tc = tenant].     *)
+RECURSIVE IsSubseq(_, _)
+IsSubseq(a, b) == IF a = <<>> THEN TRUE
+                  ELSE IF b = <<>> THEN FALSE
+                  ELSE IF Head(a) = Head(b) THEN IsSubseq(Tail(a), Tail(b))
+                  ELSE IsSubseq(a, Tail(b))
+ValidWrites(writes) == SelectSeq(writes, LAMBDA c : c # 0)
+(* cfgOf: version id -> configuration list (as for RouteAccepted) *)
+C27ReloadClauses(writes, applied, looks, noring, finalOK, cfgOf) ==
+    (* only contents that were written and load are ever put in force, never an older one     *)
+    (* after a newer one: "invalid intermediate content must keep the old ring"                *)
+    (IF IsSubseq(applied, ValidWrites(writes)) THEN {} ELSE {"reload-applies-only-written-valid-configs-in-order"})
+    (* once a configuration is in force a request never finds the receiver without a hashring *)
+    \cup (IF noring = 0 THEN {} ELSE {"no-window-without-a-hashring"})
+    (* a request is answered by a hashring of the configuration in force when it read the     *)
+    (* hashring (requests in flight finish on the ring they started with), selected as C27     *)
+    (* demands for that configuration                                                          *)
+    \cup (IF \A k \in DOMAIN looks :
+               /\ looks[k].aver = looks[k].ver
+               /\ looks[k].ver \in DOMAIN cfgOf
+               /\ looks[k].aidx \in RouteAccepted(cfgOf[looks[k].ver], looks[k].tc)
+          THEN {} ELSE {"routed-by-the-configuration-in-force"})
+    (* a valid final content takes effect (bounded time on the code: 60 s for a 100 ms watcher) *)
+    \cup (IF writes[Len(writes)] # 0 /\ ~finalOK THEN {"latest-valid-configuration-takes-effect"} ELSE {})
+
 (* ---- C49: memcached server selection ---- *)
 (* "Each cache key is sent to the same memcached server whether it is looked up alone or in  *)
 (* a batch and regardless of the order servers are listed in": single[k] / batch[k] /         *)
@@ -160,6 +191,20 @@ C49PlaceClauses(single, batch, perm) ==
 C49AddClauses(before, after, new) ==
     IF \A k \in DOMAIN before : after[k] = before[k] \/ after[k] = new THEN {}
     ELSE {"adding-a-server-moves-keys-only-onto-it"}
+
+(* C49 with the server list replaced concurrently (phase 2: SetServers on every DNS refresh      *)
+(* while lookups run).  "Each cache key is sent to the same memcached server ..." for a list    *)
+(* that changes means: a lookup is answered from the list in force before or after a            *)
+(* replacement, entirely -- never from a mixture.  pickA / pickB: server of every key under     *)
+(* list A / B (0 = "no servers" error); picks: observed [k, s]; batches: observed whole         *)
+(* PickServerForKeys answers (server per key); eachs: observed Each() visiting orders;          *)
+(* listA / listB: the lists in stored order.                                                    *)
+C49ConcClauses(pickA, pickB, picks, batches, eachs, listA, listB, crashes) ==
+    (IF /\ \A i \in DOMAIN picks : picks[i].s \in {pickA[picks[i].k], pickB[picks[i].k]}
+        /\ \A i \in DOMAIN batches : batches[i] = pickA \/ batches[i] = pickB
+        /\ \A i \in DOMAIN eachs : eachs[i] = listA \/ eachs[i] = listB
+     THEN {} ELSE {"lookup-sees-the-old-or-the-new-server-list-entirely"})
+    \cup (IF crashes = 0 THEN {} ELSE {"lookup-or-update-never-crashes"})
 
 (***************************************************************************)
 (* ======================  ALGORITHM LEVEL  ======================         *)
@@ -239,6 +284,19 @@ JumpHashModel(key, n, W, S, A) == JumpLoop(-1, 0, key, n, W, S, W - S, A)
 (* the selector: servers in natural sort order, bucket = jump hash of the key's hash *)
 PickModel(sorted, keyhash, W, S, A) ==
     IF Len(sorted) = 1 THEN sorted[1] ELSE sorted[JumpHashModel(keyhash, Len(sorted), W, S, A) + 1]
+
+(* validation paths (phase 2): what ParseConfig + NewMultiHashring answer for configurations   *)
+(* that are wrong or unusual.  vkind: "malformed" (broken JSON), "noaddr" (an endpoint without *)
+(* address), "emptylist" ("[]": no hashring at all), "emptyeps" (a hashring without            *)
+(* endpoints), "dup" (the same endpoint listed twice), "unknownalgo" (falls back to hashmod),  *)
+(* "partaz" (ketama, some endpoints without AZ), "hashmodaz" (hashmod with AZs).  n = number   *)
+(* of endpoints listed.                                                                         *)
+BuildOutcomeV(vkind, n, rf) ==
+    CASE vkind \in {"malformed", "noaddr", "hashmodaz"} -> "error"
+      [] vkind = "emptylist" -> "ok"                       \* a multi-hashring without hashrings: every GetN errors
+      [] vkind \in {"emptyeps", "dup", "partaz"} -> IF n < rf THEN "error" ELSE "ok"      \* ketama
+      [] vkind = "unknownalgo" -> "ok"                     \* hashmod accepts any number of endpoints
+      [] OTHER -> "ok"
 
 (* ---- enumeration helpers for the models ---- *)
 (* zone layouts of n endpoints up to renaming: zone sizes non-increasing, at most mz zones *)
